@@ -43,3 +43,46 @@ Example C09_example :
                   4 [FArrive 0; FDie 1; FArrive 0; FTimeout]
   = OL [OL [OS "batch"; OL [OZ 0]]; OL [OS "worker_died"]].
 Proof. vm_compute. reflexivity. Qed.
+
+(* ---- never yields wrong data, never ends the epoch early (map-style datasets, snapshot interval <= 1 or no failing index) ----
+   PROVED for EVERY fault schedule — any interleaving of worker deaths, poll time-outs and arrivals in any order, from a
+   fresh iterator, any num_workers / prefetch_factor / batch sampler output: the outcomes of the successive next() calls are
+   the sampler's batches from the first one on (an error outcome standing for a failing batch), with no gap, nothing out of
+   place, nothing repeated, until ONE closing outcome — the worker-died error (or, in the model, the poll going on for ever /
+   fuel) — or StopIteration, and StopIteration only after the LAST batch.  No assertion of the iterator can fire.
+   (A death only removes future arrivals: the invariant InvG of the map-style proof survives every fault event.) *)
+From PD Require SdlMapProofs SdlFaultMap.
+Theorem C09_fault_run_never_wrong : forall c, c_kind c = KMap -> 0 < c_W c -> 0 < c_P c -> c_I c <= 1 \/ c_bad c = [] ->
+  forall m cr evs, exists j tail,
+    run_f m c (sdl_fresh c) cr evs = map (fun i => FO (SdlMapProofs.want c i)) (seq 0 j) ++ tail /\ j <= SdlMapProofs.LL c /\
+    (tail = [] \/ exists o, tail = [o] /\ (SdlFaultMap.benign o \/ (o = FO OStop /\ j = SdlMapProofs.LL c))).
+Proof. exact SdlFaultMap.fresh_fault_run_never_wrong. Qed.
+Print Assumptions C09_fault_run_never_wrong.
+
+(* ---- a checkpoint taken before the death still resumes correctly (map-style, no failing index) ----
+   Every next() that succeeds under faults leaves the iterator in a GOOD state (the states from which state_dict() resumes
+   exactly, C01), so the checkpoint taken after any delivered batch — however many workers have died meanwhile, whatever the
+   arrival order was — loaded into a NEW iterator (fresh processes), yields exactly the remaining batches, under every
+   arrival schedule of the resumed run *)
+Theorem C09_fault_step_keeps_good : forall c, c_kind c = KMap -> 0 < c_W c -> 0 < c_P c -> c_bad c = [] ->
+  forall off c0 k s cr evs o s' cr' evs', SdlMapProofs.Good c off c0 k s -> k < SdlMapProofs.L c off ->
+  sdl_next_f c s cr evs = (o, s', cr', evs') ->
+  (o = FO (SdlMapProofs.want c (off + k)) /\ SdlMapProofs.Good c off c0 (S k) s') \/ SdlFaultMap.benign o.
+Proof. exact SdlFaultMap.fault_step_keeps_good. Qed.
+Print Assumptions C09_fault_step_keeps_good.
+
+Theorem C09_checkpoint_after_faulty_step_resumes_exactly : forall c, c_kind c = KMap -> 0 < c_W c -> 0 < c_P c -> c_bad c = [] ->
+  forall off c0 k s cr evs o s' cr' evs' sched, SdlMapProofs.Good c off c0 k s -> k < SdlMapProofs.L c off ->
+  sdl_next_f c s cr evs = (o, s', cr', evs') -> o = FO (SdlMapProofs.want c (off + k)) ->
+  let '(sr, sched') := sdl_resume c (state_dict s') sched in
+  SdlMapProofs.outcomes c (S (SdlMapProofs.LL c - (off + S k))) sr sched' =
+  map (SdlMapProofs.want c) (seq (off + S k) (SdlMapProofs.LL c - (off + S k))) ++ [OStop].
+Proof. exact SdlFaultMap.checkpoint_after_faulty_step_resumes_exactly. Qed.
+Print Assumptions C09_checkpoint_after_faulty_step_resumes_exactly.
+
+(* the worker-died error is never a false alarm: for every configuration, state and fault schedule, it names only workers
+   that have really died *)
+Theorem C09_died_report_is_truthful : forall fuel c s cr evs ws s' cr' evs',
+  next_data_f fuel c s cr evs = (FWorkerDied ws, s', cr', evs') -> forall w, In w ws -> nth w cr' false = true.
+Proof. exact SdlFaultMap.died_report_is_truthful. Qed.
+Print Assumptions C09_died_report_is_truthful.
